@@ -540,9 +540,12 @@ pub fn future_trace<const N: usize>(g: &Sodg<N>, keys: &[usize]) -> Option<Vec<S
     Some(t)
 }
 
-/// the next two ids an object we own hands out (each added)
+/// the next two ids an object we own hands out (each added); then the two are bound into a new
+/// group, one gets a datum, the datum is read: the new group must die (a stale counter or member
+/// list left in a free slot shows here)
 fn next_ids_owned<const N: usize>(mut c: Sodg<N>) -> Vec<String> {
     let mut t = vec![];
+    let mut got: Vec<usize> = vec![];
     {
         for _ in 0..2 {
             let free = guarded(|| c.keys().len()).unwrap_or(0) < c.verif_snapshot().vertices.len();
@@ -553,12 +556,22 @@ fn next_ids_owned<const N: usize>(mut c: Sodg<N>) -> Vec<String> {
                 Ok(id) => {
                     t.push(format!("next_id()={id}"));
                     let _ = guarded(|| c.add(id));
+                    got.push(id);
                 }
                 Err(_) => {
                     t.push("next_id() panicked".to_string());
                     break;
                 }
             }
+        }
+        if got.len() == 2 && got[0] != got[1] {
+            let r = guarded(|| {
+                c.bind(got[0], got[1], lab(0));
+                c.put(got[1], &crate::menu::dat(0));
+                let d = c.data(got[1]).map(|h| crate::hx::raw_hex(&h));
+                (d, crate::real::keys_sorted(&c))
+            });
+            t.push(format!("new group of the two, put, read: {r:?}"));
         }
     }
     t
@@ -623,6 +636,56 @@ pub fn clone_probe<const N: usize>(cfg: &HxCfg, g: &Sodg<N>, m: &Model, hist: &d
         return;
     }
     bump(counters, "clone_futures_compared", 1);
+    // Clone::clone_from into a target that has lived before must give the same copy
+    if let Ok(orig5) = replay::<N>(cfg.cap, &h) {
+        let built = guarded(|| {
+            let mut t: Sodg<N> = Sodg::empty(cfg.cap);
+            let ids: Vec<usize> = (0..cfg.cap.min(3)).collect();
+            for v in &ids {
+                t.add(*v);
+            }
+            if ids.len() >= 2 {
+                t.bind(ids[0], ids[1], lab(0));
+                t.put(ids[1], &crate::menu::dat(1));
+            }
+            t.clone_from(&orig5);
+            t
+        });
+        if let Ok(t) = built {
+            let ot = observe_all(&t, true);
+            if ot != oa {
+                out.push(Finding::new("clone-from-answers-differ", tags, format!("a.clone_from(&b) into a graph that had lived before answers a query differently from b: {}", first_diff(&oa, &ot))));
+                return;
+            }
+            let mut ft = drain_trace_owned(t, &keys, false);
+            ft.push("--".to_string());
+            if let Ok(t2) = guarded(|| {
+                let mut t: Sodg<N> = Sodg::empty(cfg.cap);
+                for v in 0..cfg.cap.min(3) {
+                    t.add(v);
+                }
+                if cfg.cap >= 2 {
+                    t.bind(0, 1, lab(0));
+                    t.put(1, &crate::menu::dat(1));
+                }
+                t.clone_from(&orig5);
+                t
+            }) {
+                ft.extend(next_ids_owned(t2));
+            }
+            // compare with the original's ascending drain and its next ids (computed above as parts of fa)
+            let asc: Vec<String> = fa.iter().take_while(|x| x.as_str() != "--").cloned().collect();
+            let ids_part: Vec<String> = fa.iter().rev().take_while(|x| x.as_str() != "--").cloned().collect::<Vec<_>>().into_iter().rev().collect();
+            let mut want = asc;
+            want.push("--".to_string());
+            want.extend(ids_part);
+            if ft != want {
+                let i = ft.iter().zip(want.iter()).position(|(a, b)| a != b).unwrap_or(ft.len().min(want.len()));
+                out.push(Finding::new("clone-from-future-differs", tags, format!("a.clone_from(&b) into a graph that had lived before behaves differently from b afterwards: b {:?}, a {:?}", want.get(i), ft.get(i))));
+                return;
+            }
+        }
+    }
     // independence: mutating the clone never changes the original, and vice versa
     let snap = orig.verif_snapshot();
     let impl_pos = snap.next_v;
@@ -744,9 +807,10 @@ pub fn reload_probe<const N: usize>(g: &Sodg<N>, m: &Model, out: &mut Vec<Findin
 /// CUTS: every proper prefix of the image must be rejected by load().
 pub fn cuts_of_image<const N: usize>(bytes: &[u8], out: &mut Vec<Finding>, counters: &mut BTreeMap<&'static str, u64>) {
     let tags: &[&'static str] = &["C09"];
-    let f = thread_file("cut");
-    // the complete image is written once and then shortened byte by byte
-    if std::fs::write(&f, bytes).is_err() {
+    // cut IN PLACE: the very file save() wrote (over an older, longer file) is shortened byte by byte,
+    // as a crash during the write of a second checkpoint would leave it
+    let f = thread_file("probe");
+    if std::fs::read(&f).ok().as_deref() != Some(bytes) && std::fs::write(&f, bytes).is_err() {
         return;
     }
     let Ok(file) = std::fs::OpenOptions::new().write(true).open(&f) else { return };
